@@ -33,7 +33,7 @@ SPEC_TEXT = {("path", False): ["path", "path:ascending"], ("path", True): ["path
 # names where component-wise and plain string order differ (bytes below '/' = 0x2f: space ! - . ; and above),
 # upper/lower case, digits, prefixes of each other, non-ASCII
 PLAIN = ["a", "b", "c", "x", "y", "ab", "a b", "a.b", "a-b", "a_b", "a0", "a~", "A", "B", "Z", "z", "0", "10", "9",
-         "b.txt", "c.txt", "x.rs", "a.b.c", "é", "zé", "a+b", "a,b", "a b c", "-", "_"]
+         "b.txt", "c.txt", "x.rs", "a.b.c", "é", "zé", "a+b", "a,b", "a b c", "-", "_", "!a", "!b.txt", "!"]
 HIDDEN = [".h", ".a", ".x y", "..x", ".Thumbs.db", ".b.txt"]
 JUNKISH = ["Thumbs.db", "Desktop.ini", "thumbs.db", "desktop.ini", "Thumbs.db.bak", "xThumbs.db", "Desktop.ini "]
 SIZES = [0, 1, 1, 2, 2, 2, 3, 3, 5, 10, 17]
@@ -212,7 +212,7 @@ def glob_regex(toks):
     return re.compile(b"".join(out), re.S)
 
 
-GLOB_SAFE = re.compile(r"[A-Za-z0-9 ._~+,\-é]+\Z")
+GLOB_SAFE = re.compile(r"[A-Za-z0-9 ._~+,\-é!]+\Z")
 
 
 def lit(s):
@@ -258,7 +258,11 @@ def gen_glob(r, paths):
         toks = lit(p[0]) + [("star",)] + lit(full[-1:])
     else:
         toks = lit(p[-1])
-    if not toks or (toks[0][0] == "lit" and toks[0][1][:1] in ("!", "-")):
+    # only the FIRST `!` of the argument is the polarity mark; an excluding glob whose pattern itself begins with `!` is written
+    # `!!name` and is about names that begin with `!` (added after seeded change C06-12: every leading `!` trimmed). An including
+    # glob cannot begin with `!`, and none begins with `-` (it would read as an option).
+    first = toks[0][1][:1] if toks and toks[0][0] == "lit" else ""
+    if not toks or first == "-" or (first == "!" and include):
         toks = [("star",)] + toks
     return (include, toks)
 
@@ -729,13 +733,16 @@ def validate_globs(ctx):
             g = gen_glob(r, paths)
             for p in r.sample(paths, min(4, len(paths))) + [[r.choice(PLAIN)]]:
                 pairs.append((g[1], "/".join(p)))
-    lines = ["globf %s %s" % (lib.hexlist([glob_text(g)]), lib.hexs(p)) for g, p in pairs]
+    # a pattern that itself begins with `!` can only be given as an excluding glob (`!!name`): then a match means "left out"
+    banged = lambda g: glob_text(g).startswith("!")
+    lines = ["globf %s %s" % (lib.hexlist([("!" if banged(g) else "") + glob_text(g)]), lib.hexs(p)) for g, p in pairs]
     ok = True
     nmatch = 0
     for (g, p), rep in zip(pairs, ctx.harness(lines)):
         ctx.cov["evaluations"] += 1
-        want = "OK %d" % (1 if glob_regex(g).fullmatch(p.encode()) else 0)
-        nmatch += want == "OK 1"
+        hit = bool(glob_regex(g).fullmatch(p.encode()))
+        want = "OK %d" % (1 if hit != banged(g) else 0)
+        nmatch += hit
         if rep != want:
             ok = False
             ctx.violation("assumption-broken",
